@@ -518,27 +518,32 @@ theorem lvAt_updLevel (l : List Level) (i : Nat) (f : Level → Level) (j : Nat)
     rw [h1]
     simp [hi]
 
-/-- `l'` has the same slots and the same arities as `l` -/
-def SameArity (l l' : List Level) : Prop := l'.length = l.length ∧ ∀ j, (lvAt l' j).arity = (lvAt l j).arity
+/-- `l'` has the same slots, the same arities and the same widths as `l` -/
+def SameArity (l l' : List Level) : Prop :=
+  l'.length = l.length ∧ (∀ j, (lvAt l' j).arity = (lvAt l j).arity) ∧ ∀ j, (lvAt l' j).width = (lvAt l j).width
 
-theorem SameArity.refl (l : List Level) : SameArity l l := ⟨rfl, fun _ => rfl⟩
+theorem SameArity.refl (l : List Level) : SameArity l l := ⟨rfl, fun _ => rfl, fun _ => rfl⟩
 theorem SameArity.trans {a b c : List Level} (h1 : SameArity a b) (h2 : SameArity b c) : SameArity a c :=
-  ⟨h2.1.trans h1.1, fun j => (h2.2 j).trans (h1.2 j)⟩
-theorem SameArity.upd (l : List Level) (i : Nat) (f : Level → Level) (hf : ∀ x, (f x).arity = x.arity) :
-    SameArity l (updLevel l i f) := by
-  refine ⟨updLevel_length l i f, fun j => ?_⟩
-  rw [lvAt_updLevel]
-  split
-  · rename_i h; rw [hf, h.1]
-  · rfl
+  ⟨h2.1.trans h1.1, fun j => (h2.2.1 j).trans (h1.2.1 j), fun j => (h2.2.2 j).trans (h1.2.2 j)⟩
+theorem SameArity.upd (l : List Level) (i : Nat) (f : Level → Level) (hf : ∀ x, (f x).arity = x.arity)
+    (hw : ∀ x, (f x).width = x.width) : SameArity l (updLevel l i f) := by
+  refine ⟨updLevel_length l i f, fun j => ?_, fun j => ?_⟩
+  · rw [lvAt_updLevel]
+    split
+    · rename_i h; rw [hf, h.1]
+    · rfl
+  · rw [lvAt_updLevel]
+    split
+    · rename_i h; rw [hw, h.1]
+    · rfl
 theorem SameArity.lastZero {l l' : List Level} (h : SameArity l l') (hz : LastZero l) : LastZero l' := by
   unfold LastZero at *
-  rw [h.1, h.2]; exact hz
+  rw [h.1, h.2.1]; exact hz
 
 theorem setType_same (l : List Level) (i t depth : Nat) (ctype : Int) (keep : Bool) :
     SameArity l (setType l i t depth ctype keep) := by
   unfold setType
-  exact SameArity.upd l i _ (fun x => rfl)
+  exact SameArity.upd l i _ (fun x => rfl) (fun x => rfl)
 
 /-! ### the defaults loop -/
 
@@ -562,7 +567,7 @@ theorem defaultsLoop_safe : ∀ (is : List Nat) (st : Fin2) (n m : Nat), st.leve
     obtain ⟨a, g⟩ := ag
     simp only
     have hs1 : SameArity st.levels (updLevel st.levels i (fun l => { l with attr := a, attached := (lvAt st.levels i).attached.map (fun x => (setDefaultAttrs x g).1) })) :=
-      SameArity.upd _ _ _ (fun x => rfl)
+      SameArity.upd _ _ _ (fun x => rfl) (fun x => rfl)
     generalize hlv : updLevel st.levels i (fun l => { l with attr := a, attached := (lvAt st.levels i).attached.map (fun x => (setDefaultAttrs x g).1) }) = lv1 at hs1
     have hlen1 : lv1.length = n := hs1.1.trans hn
     have hz1 : LastZero lv1 := hs1.lastZero hz
@@ -578,7 +583,7 @@ theorem defaultsLoop_safe : ∀ (is : List Nat) (st : Fin2) (n m : Nat), st.leve
     · exact hlog
     · rename_i arr
       have hs2 : SameArity lv1 (updLevel lv1 i (fun l => { l with idx := { l.idx with arr := arr } })) :=
-        SameArity.upd _ _ _ (fun x => rfl)
+        SameArity.upd _ _ _ (fun x => rfl) (fun x => rfl)
       exact ih _ n m (hs2.1.trans hlen1) h1 hnm (hs2.lastZero hz1) (fun j hj => his j (List.mem_cons_of_mem _ hj)) hlog
 
 /-! ### the parsing loop -/
@@ -631,11 +636,13 @@ theorem levelStep_safe (c : Byte) (pos : Bytes) (st : Loop) (h : LInv st) :
           · exact hlog
           · split
             · exact hlog
-            · rename_i hcount _
-              refine ⟨?_, ?_, hlog⟩
-              · simp only [List.length_append, updLevel_length, List.length_cons, List.length_nil]; omega
-              · simp only [List.length_append, updLevel_length, List.length_cons, List.length_nil]
-                unfold maxDepth at hcount; omega
+            · split
+              · exact hlog
+              · rename_i hcount _
+                refine ⟨?_, ?_, hlog⟩
+                · simp only [List.length_append, updLevel_length, List.length_cons, List.length_nil]; omega
+                · simp only [List.length_append, updLevel_length, List.length_cons, List.length_nil]
+                  unfold maxDepth at hcount; omega
 
 theorem loopBody_safe (pos : Bytes) (st : Loop) (h : LInv st) :
     RSafe maxDepth (loopBody pos st) (fun r => LInv r.1) := by
@@ -1090,17 +1097,19 @@ theorem levelStep_errOK (c : Byte) (pos : Bytes) (st : Loop) : ErrOK (levelStep 
     · split at h
       · simp only [Except.error.injEq, Prod.mk.injEq] at h; rw [← h.1]; simp
       · split at h
-        · rename_i e' he
-          simp only [Except.error.injEq, Prod.mk.injEq] at h
-          rw [← h.1]
-          split at he
-          · rw [parseAttrs_err _ _ _ _ he]; simp
-          · cases he
+        · simp only [Except.error.injEq, Prod.mk.injEq] at h; rw [← h.1]; simp
         · split at h
-          · simp only [Except.error.injEq, Prod.mk.injEq] at h; rw [← h.1]; simp
+          · rename_i e' he
+            simp only [Except.error.injEq, Prod.mk.injEq] at h
+            rw [← h.1]
+            split at he
+            · rw [parseAttrs_err _ _ _ _ he]; simp
+            · cases he
           · split at h
             · simp only [Except.error.injEq, Prod.mk.injEq] at h; rw [← h.1]; simp
-            · cases h
+            · split at h
+              · simp only [Except.error.injEq, Prod.mk.injEq] at h; rw [← h.1]; simp
+              · cases h
 
 theorem loopBody_errOK (pos : Bytes) (st : Loop) : ErrOK (loopBody pos st) := by
   intro e log h
@@ -1295,25 +1304,27 @@ theorem levelStep_ainv (c : Byte) (pos : Bytes) (st : Loop) (h : AInv st) (st' :
       · cases he
       · split at he
         · cases he
-        · rename_i nx2 attr2 ix2 hres
-          split at he
+        · split at he
           · cases he
-          · split at he
+          · rename_i nx2 attr2 ix2 hres
+            split at he
             · cases he
-            · simp only [Except.ok.injEq, Prod.mk.injEq] at he
-              obtain ⟨rfl, _⟩ := he
-              refine ⟨?_, h.2⟩
-              intro x hx
-              simp only at hx
-              rcases List.mem_append.1 hx with hx | hx
-              · exact (h.1.upd (st.levels.length - 1) (fun l => { l with arity := item }) (fun x => rfl)) x hx
-              · simp only [List.mem_singleton] at hx
-                subst hx
-                simp only
-                split at hres
-                · rw [parseAttrs_arr _ _ _ _ _ _ hres]
-                · simp only [Except.ok.injEq, Prod.mk.injEq] at hres
-                  obtain ⟨_, _, rfl⟩ := hres; rfl
+            · split at he
+              · cases he
+              · simp only [Except.ok.injEq, Prod.mk.injEq] at he
+                obtain ⟨rfl, _⟩ := he
+                refine ⟨?_, h.2⟩
+                intro x hx
+                simp only at hx
+                rcases List.mem_append.1 hx with hx | hx
+                · exact (h.1.upd (st.levels.length - 1) (fun l => { l with arity := item }) (fun x => rfl)) x hx
+                · simp only [List.mem_singleton] at hx
+                  subst hx
+                  simp only
+                  split at hres
+                  · rw [parseAttrs_arr _ _ _ _ _ _ hres]
+                  · simp only [Except.ok.injEq, Prod.mk.injEq] at hres
+                    obtain ⟨_, _, rfl⟩ := hres; rfl
 
 theorem loopBody_ainv (pos : Bytes) (st : Loop) (h : AInv st) (st' : Loop) (next : Option Bytes)
     (he : loopBody pos st = .ok (st', next)) : AInv st' := by
